@@ -30,7 +30,7 @@ TPL = '"NTDo","NTDs","TPID","THD","THDo","PS","PE","X"'
 FLAGS = ('show_timestamp', 'show_name', 'show_func_qual', 'show_tid', 'show_process', 'show_args')
 
 
-FILTER = {'fclass': ()}        # class filter in force for the listings of the current composition check
+FILTER = {'fclass': (), 'timebase': None}   # class filter / caller-supplied timebase in force for the listings of the current composition check
 
 
 def listing(api, blob, shows, color, tables=None):
@@ -41,6 +41,11 @@ def listing(api, blob, shows, color, tables=None):
     for f, v in zip(FLAGS, shows):
         setattr(p, f, v)
     p.color = color
+    if FILTER['timebase']:
+        # the caller knows the machine's timebase: the timestamp column is a wall-clock date, still ONE column
+        import datetime
+        p.numer, p.denom, p.mach_absolute_time, p.usecs_since_epoch, tz = FILTER['timebase']
+        p.timezone = datetime.timezone(datetime.timedelta(minutes=tz))
     return [str(x) for x in getattr(p, api)(io.BytesIO(blob))]
 
 
@@ -148,6 +153,14 @@ def run(ctx):
                         ncompose += check_compose(ctx, api, dump2, w2, True)
                     finally:
                         FILTER['fclass'] = ()
+                # ... and with a timebase supplied by the caller (timestamps shown as dates)
+                if i % 3 == 0 or not ctx.quick:
+                    FILTER['timebase'] = (rnd.choice([1, 125]), rnd.choice([1, 3]), rnd.choice([0, 1, 10 ** 6]),
+                                          rnd.choice([0, 1600000000 * 10 ** 6 + 123456]), rnd.choice([0, 120, -330]))
+                    try:
+                        ncompose += check_compose(ctx, api, dump, w, True)
+                    finally:
+                        FILTER['timebase'] = None
         # process column parsed from the formatted lines, identities from a parallel traces() run
         p = PyKdebugParser()
         r, _ = request(w, p, dump, 'traces')
